@@ -119,7 +119,7 @@ Definition seg_good (sg : seg) : Prop :=
   (~ In 34 (seg_src sg) /\ ~ In 60 (seg_src sg) /\ ~ In 62 (seg_src sg)) /\
   match sg with SText _ => True | SMatch m => well_shaped m /\ exists sa, m_g1 m = E sa end.
 
-Lemma walk_render o : ~ In 62 (o_extra o) -> forall segs, Forall seg_good segs ->
+Lemma walk_render o : extra_clean (o_extra o) -> forall segs, Forall seg_good segs ->
   forall cur, ~ In 60 cur ->
     walk o (tok (render (pieces o segs)) false cur) (rev cur ++ src segs) = true.
 Proof.
@@ -160,9 +160,20 @@ Proof.
       apply (IH []). intros [].
 Qed.
 
-Lemma extra_ok_62 x : extra_ok x = true -> ~ In 62 x.
+Lemma no_angle_b_62 s : no_angle_b s = true -> ~ In 62 s.
 Proof.
-  unfold extra_ok. intros H Hin. rewrite forallb_forall in H. specialize (H _ Hin). cbn in H. discriminate.
+  unfold no_angle_b. intros H Hin. rewrite forallb_forall in H. specialize (H _ Hin). cbn in H. discriminate.
+Qed.
+
+Lemma extra_ok_clean x : extra_ok x = true -> extra_clean (extra_of x).
+Proof.
+  destruct x as [s|s|pfx a b|a b]; cbn [extra_ok extra_of extra_clean]; intros H.
+  - apply no_angle_b_62. exact H.
+  - intros h _. apply no_angle_b_62. exact H.
+  - apply andb_true_iff in H as [Ha Hb]. intros h _. destruct (starts_with pfx h); apply no_angle_b_62; assumption.
+  - apply andb_true_iff in H as [Ha Hb]. intros h Hh Hin.
+    apply in_app_or in Hin as [Hin|Hin]; [exact (no_angle_b_62 _ Ha Hin)|].
+    apply in_app_or in Hin as [Hin|Hin]; [exact (Hh Hin)|exact (no_angle_b_62 _ Hb Hin)].
 Qed.
 
 Lemma segments_good s : Forall seg_good (segments (html_escape s)).
@@ -191,7 +202,7 @@ Proof.
     unfold linkify_escaped.
     rewrite <- (segments_src (html_escape s)) at 2.
     apply (walk_render (mk_opts sh extra req perms)) with (cur := []).
-    + apply extra_ok_62. exact X.
+    + apply extra_ok_clean. exact X.
     + apply segments_good.
     + intros [].
   - destruct x; reflexivity.
